@@ -1,8 +1,9 @@
 import GolibsVerif.Driver.C15
+import GolibsVerif.Driver.C03
 
 namespace GolibsVerif.Driver
 
-def handlers : List (String → List String → Option String) := [C15.handle]
+def handlers : List (String → List String → Option String) := [C15.handle, C03.handle]
 
 def dispatch (line : String) : String :=
   match (line.trimAscii.toString).splitOn " " with
